@@ -126,8 +126,10 @@ func (p *poller) addDialer(c *Conn) error {
 	err := p.addReadWrite(fd)
 	if err != nil {
 		p.g.connsUnix[fd] = nil
-		// DialAsync returns this error itself.
+		// DialAsync returns this error itself (and releases the
+		// connection count): no dial callback, no close notification.
 		c.onConnected = nil
+		c.p = nil
 		_ = c.closeWithError(err)
 	}
 	return err
